@@ -623,6 +623,29 @@ func runC17Second(c *Ctx) {
 			c.undecided("C17.collapse-keeps-value", "branch.delete", bd.Pos(), "no leaf built from the branch value")
 		}
 	}
+	// ---- leaf.set splits the leaf (new branch / extension) only where the keys really differ
+	if f := c.mustFn(pkg, "leaf", "set"); f != nil {
+		n := 0
+		for _, e := range exitAlts(f) {
+			al, isAl := unwrap(e.Results[0]).(*ssa.Alloc)
+			if !isAl {
+				continue
+			}
+			switch namedOf(al.Type()) {
+			case "branch", "extension":
+			default:
+				continue
+			}
+			n++
+			c.requireAny("C17.leaf-split", "leaf.set replaces the leaf by a "+namedOf(al.Type()), e.pos(), e.Guards, "keys do not match ∨ common prefix shorter than one of the keys",
+				wFalse("keys do not match", `compareKeys\(.*\)#1$`),
+				wGE("common prefix shorter than a key", -1, t(1, `^len\(`), t(-1, `compareKeys\(.*\)#0$`)),
+				wGE("common prefix shorter than the new key", -1, t(1, `^len\(\$1\)$`), t(-1, `^\$2$`), t(-1, `compareKeys\(.*\)#0$`)))
+		}
+		if n == 0 {
+			c.undecided("C17.leaf-split", "leaf.set", f.Pos(), "no exit building a branch or an extension")
+		}
+	}
 	// ---- a hash reference links by its bare hash only where the caller forces hashes
 	if f := c.mustFn(pkg, "hash", "getLink"); f != nil {
 		bare, wrapped := 0, 0
